@@ -9,6 +9,7 @@ UNDECIDED otherwise.
 import random
 
 import term as T
+import tcompile
 from common import HOLDS, REFUTED, UNDECIDED
 
 
@@ -259,15 +260,24 @@ def _cross_lane_envs(actual, argspecs, lane_bits):
             break
     if not pairs:
         return
-    for k, j in pairs[:6]:
-        lb = argspecs[k][1]
-        vals = _lane_cands(lb)
-        LM = (1 << lb) - 1
-        pv = [vals[x % len(vals)] for x in (1, 4, 6, 12, 18, 24, 3, 9, 20, 30, 33)] + [LM, (LM >> 1) + 1, 0x0123456789ABCDEF & LM]
-        for bg in (1, 3, LM, (LM >> 1), 0x00010003 & LM or 5):
-            for v in pv:
+    # backgrounds: the same value in every lane of every operand, then mixed pairs (even-numbered operands /
+    # odd-numbered operands) with a large first and a small or negative second operand - a corrupted
+    # neighbour-dependent constant (multiplier, shift count) shows only when the lane's own operands differ
+    lb0 = argspecs[pairs[0][0]][1]
+    L0 = (1 << lb0) - 1
+    bgs = [(L0 >> 1, 2), (1, 1), ((L0 >> 1) - 0xFE, L0 - 1), (3, 3), ((L0 >> 1) + 2, 3), (L0, L0), (L0, 7), (L0 >> 1, L0 >> 1),
+           ((L0 >> 1) + 2, L0), (0x00010003 & L0 or 5, 0x00010003 & L0 or 5), (L0 >> 2, 15 & L0)]
+    for bgx, bgy in bgs:
+        for vi in range(14):
+            for k, j in pairs[:6]:
+                lb = argspecs[k][1]
+                vals = _lane_cands(lb)
+                LM = (1 << lb) - 1
+                pv = [vals[x % len(vals)] for x in (1, 4, 6, 12, 18, 24, 3, 9, 20, 30, 33)] + [LM, (LM >> 1) + 1, 0x0123456789ABCDEF & LM]
+                v = pv[vi]
                 args = []
                 for ai, (b, l2, dom) in enumerate(argspecs):
+                    bg = bgx if ai % 2 == 0 else bgy
                     if not l2:
                         args.append(bg & ((1 << b) - 1) if b <= 64 else 0)
                         continue
@@ -331,12 +341,32 @@ def _dep_diff_envs(actual, expected, argspecs):
                         return
 
 
+def _count_fp(t):
+    seen = set()
+    stack = [t]
+    n = 0
+    while stack:
+        x = stack.pop()
+        if not isinstance(x, tuple) or id(x) in seen:
+            continue
+        seen.add(id(x))
+        if x[0] in T.FP_OPS or x[0].startswith("fr:") or x[0].startswith("spec:c_") or x[0].startswith("x86.get") \
+                or x[0] in ("x86.fixupimm", "x86.range"):
+            n += 1
+        stack.extend(y for y in x[2:] if isinstance(y, tuple))
+    return n
+
+
 def _find_witness(actual, expected, argspecs, names, lane_bits, seed, env_ok, watch, modes, fp):
     import itertools
     sz = max(1, T.size(actual) + T.size(expected))
-    budget = max(24, min(2600, 600000 // sz))
-    cost = max(1, sz // 8) * (6 if fp else 1) * len(modes)
-    probes = list(itertools.islice(_cross_lane_envs(actual, argspecs, lane_bits), 120))
+    nfp = _count_fp(actual) + _count_fp(expected)
+    # integer nodes are evaluated by the straight-line translation of lib/tcompile.py (about 0.1 us each);
+    # a float step is exact rational arithmetic (about 15 us): one work tick is ~64 integer nodes or half a
+    # float step
+    budget = max(24, min(2600, 4000000 // (sz + 150 * nfp)))
+    cost = max(1, sz // 64 + 2 * nfp) * len(modes)
+    probes = list(itertools.islice(_cross_lane_envs(actual, argspecs, lane_bits), 600 if nfp * 40 < sz else 120))
     probes = list(_dep_diff_envs(actual, expected, argspecs)) + probes
     if EXTRA_POINTS[0] and names:
         ex = []
@@ -361,7 +391,8 @@ def _find_witness(actual, expected, argspecs, names, lane_bits, seed, env_ok, wa
             ex.append(args)
         probes = ex + probes
     budget += len(probes)
-    for ne, args in enumerate(itertools.chain(probes, gen_envs(argspecs, seed))):
+    ne = 0
+    for args in itertools.chain(probes, gen_envs(argspecs, seed)):
         if ne >= budget:
             break
         if env_ok is not None:
@@ -369,7 +400,8 @@ def _find_witness(actual, expected, argspecs, names, lane_bits, seed, env_ok, wa
             if ok is None:
                 return
             if not ok:
-                continue
+                continue        # outside the documented domain: not an evaluation, costs nothing
+        ne += 1
         for rm in modes:
             r = _one_env(actual, expected, args, names, lane_bits, watch, rm, fp)
             if r is not None:
@@ -394,13 +426,13 @@ def _one_env(actual, expected, args, names, lane_bits, watch, rm, fp):
         if watch:
             env = dict(env, watch=None)
         try:
-            e = T.ev(expected, env)
+            e = tcompile.compiled(expected).ev(env)
         except T.Uneval:
             return None
         try:
             if watch:
                 env["watch"] = watch
-            a = T.ev(actual, env)
+            a = tcompile.compiled(actual).ev(env)
         except T.Poison as p:
             w = {"args": {}, "got": "undefined: %s" % p, "expected": hex(e)}
             if fp:
@@ -532,12 +564,14 @@ def exhaustive_lanes(actual, expected, argspecs, names, lane_bits, env_ok=None, 
             return None, "enumeration budget"
         nargs = len(argspecs)
         szl = max(1, (T.size(ta) + T.size(te)) // 8)
+        cta, cte = tcompile.compiled(ta), tcompile.compiled(te)
+        allowance = 2500000 if (T.has_fp(ta) or T.has_fp(te)) else 12000000
         for v in range(1 << len(order)):
             if (v & 255) == 0:
                 # the truth table is complete, so it gets its own (deterministic) allowance instead of
                 # competing with summarisation and the heuristic search for the instance budget
                 spent[0] += 256 * szl
-                if spent[0] > 2500000:
+                if spent[0] > allowance:
                     return None, "work budget"
             args = [0] * nargs
             for j, (k, b) in enumerate(order):
@@ -567,11 +601,11 @@ def exhaustive_lanes(actual, expected, argspecs, names, lane_bits, env_ok=None, 
             if watch:
                 env["watch"] = watch
             try:
-                e = T.ev(te, dict(env, watch=None) if watch else env)
+                e = cte.ev(dict(env, watch=None) if watch else env)
             except T.Uneval:
                 return None, "expected form not evaluable"
             try:
-                a = T.ev(ta, env)
+                a = cta.ev(env)
             except T.Poison as p:
                 w = {"args": {names[k] if k < len(names) else "arg%d" % k: hex(x) for k, x in enumerate(args)},
                      "got": "undefined: %s" % p, "expected": hex(e), "lane": i}
